@@ -302,7 +302,8 @@ def free_programs(rng, n, present):
         elif kind == 1:                        # free race of producer and logging thread, control calls in between
             for _ in range(rng.randint(2, 6)):
                 p.append("Burst %d %d %d" % (rng.randint(1, 400), rng.choice([8, 60, 200, 509]), rng.choice([0, 0, 2, 20])))
-                p.append(rng.choice(["Conf", "Enable 1", "SetThreaded 1", "Start", "Sleep 300"]))
+                # (a QB_LOG_CONF_THREADED call next to a running thread is finding 13's unsynchronised store: left out while present)
+                p.append(rng.choice(["Conf", "Enable 1", "Start", "Sleep 300"] + ([] if 13 in present else ["SetThreaded 1"])))
         elif kind == 2:                        # slow logging thread, fini while much is still queued
             p += ["Slow %d" % rng.choice([20, 100, 400]), "Burst %d %d %d" % (rng.randint(50, 900), rng.choice([100, 450]), 0)]
         else:                                  # exactly at the limit, twice
@@ -315,6 +316,49 @@ def free_programs(rng, n, present):
     return progs
 
 
+def run_tsan(ctx, exe_t, progs, fcfg, tenv):
+    """free-running programs under ThreadSanitizer.  A race report is timing dependent, so it counts at once (it is
+    not re-run for confirmation like a trace rejection); the events of the executions without a report are validated."""
+    from concurrent.futures import ThreadPoolExecutor
+    shards = core.shard(list(range(len(progs))), 4)
+
+    def work(si):
+        idxs, good, reports = list(shards[si]), [], []
+        while idxs:
+            s = os.path.join(ctx.work, "tsan-%d-%d.sched" % (si, len(idxs)))
+            t = s[:-6] + ".ndjson"
+            open(s, "w").write("\nReset\n".join("\n".join(progs[i]) for i in idxs) + "\n")
+            rc, so, se = ctx.run([exe_t, s, t], timeout=900, env=tenv)
+            if rc == 0:
+                good.append((t, len(idxs)))
+                break
+            done = open(t).read().count('"e":"Reset"') if os.path.exists(t) else 0      # histories completed before the failing one
+            if "ThreadSanitizer" not in se:
+                raise core.Infra("TSan harness failed (rc=%d): %s" % (rc, se[-1500:]))
+            summ = [x for x in se.splitlines() if x.startswith("SUMMARY")]
+            reports.append((idxs[done], (summ or ["ThreadSanitizer report"])[0], se))
+            idxs = idxs[done + 1:]
+        return good, reports
+
+    with ThreadPoolExecutor(max_workers=4) as ex:
+        res = list(ex.map(work, range(len(shards))))
+    nrep = 0
+    for good, reports in res:
+        for t, n in good:
+            v = ctx.validate("LogThreadFreeTrace.tla", fcfg, t)
+            if v.accepted:
+                ctx.cov["traces_validated_against_impl"] += n
+            else:
+                ctx.violation("free-running execution under TSan rejected at event %d (%s)" % (v.matched + 1, v.violated or "no matching action"),
+                              ctx.save_file(t))
+        for hi, summ, se in reports:
+            nrep += 1
+            d = ctx.save("c16-tsan-%d.sched" % hi, "\n".join(progs[hi]) + "\n")
+            ctx.save("c16-tsan-%d.why.txt" % hi, se[-6000:])
+            ctx.violation("ThreadSanitizer: %s" % summ[:200], d)
+    ctx.log("c16-tsan: %d free-running programs under ThreadSanitizer, %d race reports" % (len(progs), nrep))
+
+
 ACTIONS = ["CallInit", "CallStart", "CallLog", "CallFini", "CtlEnable0", "CtlEnable1", "CtlConf", "CtlThreaded0", "CtlThreaded1",
            "CtlClose", "C_Lock", "C_Body", "C_Unlock", "P_Lock", "P_Account", "P_Append", "P_Drop", "P_Unlock", "P_UnlockD",
            "P_Post", "S_Lock", "S_Set", "S_Unlock", "S_Post", "S_Join", "Wk_SemWait", "Wk_Lock", "Wk_ExitTest", "Wk_Exit",
@@ -324,6 +368,10 @@ EXPECT = {11: "AllWrittenAtFini", 12: "LockLive", 13: "InLoggerSafe"}
 
 def run(ctx):
     q = ctx.quick
+    hdr = os.path.join(core.REPO, "lib", "verif_hook.h")
+    if not os.path.exists(hdr) or "QB_VP_LOGT_T_CREATED" not in open(hdr).read():
+        raise core.Infra("lib/log_thread.c has no verification hook points in %s: apply /verif/proposed_fixes/C16-hooks.patch "
+                         "(add-only, guard LIBQB_VERIF)" % core.REPO)
     exe = ctx.cc("h_logthread.c", "asan")
     # (0) which recorded findings does this tree still have?  -> Fixes / Skip of every configuration below
     present = probe(ctx, exe)
@@ -399,8 +447,7 @@ def run(ctx):
         ctx.notes.append("ThreadSanitizer variant not run: %s" % str(e).splitlines()[0][:200])
         exe_t = None
     if exe_t:
-        progs_t = free_programs(ctx.rng, 12 if q else 120, present)
-        ctx.exec_validate(exe_t, progs_t, lambda p: p, "LogThreadFreeTrace.tla", fcfg, nshards=4, label="c16-tsan", timeout=1500, env=tenv)
+        run_tsan(ctx, exe_t, free_programs(ctx.rng, 12 if q else 120, present), fcfg, tenv)
     ctx.cov["exhaustive"] = True
     ctx.assumptions += [
         "one application thread is producer and controller (the property speaks of a producer; concurrent qb_log calls are discarded by in_logger by design)",
